@@ -387,6 +387,7 @@ static long long CUR_IDX = -1;
 static int REPLAY_T;
 static const char *REPLAY_UTT;
 
+static lattice_t *HELD_DAG;
 static int CUR_G = -1, CUR_ROUTE = -1, CUR_SET_OK;
 static char LAST_RESULT[1500];
 static rg_gram CUR_REF;
@@ -687,6 +688,8 @@ run_dcase(const dcase_t *c)
             goto out;
         if ((P_C11 || P_C12) && nsearched > 0 && check_lattice(g, &R, nsearched, cd, when) < 0)
             goto out;
+        if (P_C11 && nsearched > 0 && (HELD_DAG = decoder_lattice(D)) != NULL)
+            lattice_retain(HELD_DAG); /* kept alive so that its address cannot be handed out again */
         if (P_C04 && nsearched > 0 && check_c04(&R, nsearched, cd, when) < 0)
             goto out;
         if (P_C14 && nsearched > 0 && check_c14(&R, cd, when) < 0)
@@ -738,6 +741,18 @@ run_dcase(const dcase_t *c)
             return -1;
         }
         nsearched += decoder_n_frames(D) - before;
+        if (HELD_DAG) {
+            /* decoder_end_utt searched no further frame (full-utterance call): the lattice asked for again is the same object */
+            lattice_t *again = decoder_n_frames(D) == before ? decoder_lattice(D) : HELD_DAG;
+            int same = again == HELD_DAG;
+            lattice_free(HELD_DAG);
+            HELD_DAG = NULL;
+            if (!same) {
+                mc_viol("C11/second-call-differs", cd, "the lattice asked for before decoder_end_utt and again after it, with no frame searched in between (%d both times), is a different object",
+                        before);
+                goto out;
+            }
+        }
     }
     dc_collect(D, &R);
     if (P_C03) {
@@ -789,6 +804,10 @@ run_dcase(const dcase_t *c)
     if (check_more(g, &R, T, cd) < 0)
         goto out;
 out:
+    if (HELD_DAG) {
+        lattice_free(HELD_DAG);
+        HELD_DAG = NULL;
+    }
     /* a violation found on a partial result leaves the utterance open: close it, or the next case could not start one */
     if (D->acmod->state != ACMOD_ENDED && D->acmod->state != ACMOD_IDLE)
         (void)decoder_end_utt(D);
